@@ -32,7 +32,7 @@ T = 'chainables.tree'
 
 
 def run(ctx: Ctx):
-  for r in (r1, r2, r3, r4, r5, r6, r7, r8, r9, r10, r11):
+  for r in (r1, r2, r3, r4, r5, r6, r7, r8, r9, r10, r11, r12):
     ctx.guard(r)
 
 
@@ -615,10 +615,45 @@ def r11(ctx: Ctx):
   ctx.floor(rule, 1, n)
 
 
+def r12(ctx: Ctx):
+  rule = 'R-C18-12'
+  ctx.rule(rule, '"never mutate the viewed data" — nor the view a new view is derived from: tree views are values. No function'
+           ' of the tree module stores an attribute on an object it was handed (a parameter, incl. `self` outside'
+           ' __init__/__post_init__/__setstate__); a derived view (other map_fn / key_paths) is built with'
+           ' dataclasses.replace / the constructor. `as_view(base, map_fn=f)` that assigns base.map_fn rewires `base`:'
+           ' its later reads come back mapped and get-after-set fails on it')
+  mi = ctx.repo.module(T)
+  fns = list(mi.functions.values()) + [m_ for c in mi.classes.values() for m_ in c.methods.values()]
+  n = 0
+  for fi in fns:
+    if fi.name in ('__init__', '__post_init__', '__setstate__'):
+      continue
+    n += 1
+    params = set(fi.params())
+    # names that may still hold a parameter object: the parameters themselves (re-binding on one path does not help)
+    bad = None
+    for x in walk_no_nested(fi.node):
+      tgts = x.targets if isinstance(x, ast.Assign) else [x.target] if isinstance(x, (ast.AugAssign, ast.AnnAssign)) else []
+      for t in tgts:
+        if isinstance(t, ast.Attribute) and isinstance(t.value, ast.Name) and t.value.id in params:
+          bad = x
+    what = f'{fi.qualname}: stores no attribute on an object it was handed'
+    if bad is None:
+      ctx.ok(rule, fi, what, fi.node)
+    else:
+      ctx.fail(rule, fi, what,
+               f'`{unparse(bad)[:70]}` in {fi.qualname} changes an object the caller still holds: a view derived from another'
+               ' view must be a new object (dataclasses.replace), otherwise the original view changes its mapping / key'
+               ' paths under the caller', node=bad)
+  ctx.floor(rule, 20, n)
+
+
 from mlmverif.selfcheck import B, OK  # noqa: E402
 
 _F = 'chainables/tree.py'
 VARIANTS = [
+    B('as-view-rewires-the-incoming-view', 'chainables/tree.py',
+      "      tree_or_view = dataclasses.replace(\n          tree_or_view,\n          map_fn=map_fn,\n      )", "      tree_or_view.map_fn = map_fn", 'R-C18-12'),
     B('setter-strips-self-and-descends', 'chainables/tree.py',
       '    if key_path == Key() or _is_key(key_path[0], _SELF):\n      return value\n',
       '    if key_path and _is_key(key_path[0], _SELF):\n      key_path = Key(key_path[1:])\n    if key_path == Key():\n      return value\n', 'R-C18-10'),
